@@ -90,7 +90,10 @@ def classify(ctx: HandlerContext) -> Classification:
         return Classification("ask", description="xargs (no command)")
 
     # Check for unsafe flags (interactive mode)
-    for token in tokens[1:]:
+    inner_start = 1 + _skip_flags(tokens[1:], FLAGS_WITH_ARG, stop_at_double_dash=True)
+
+    # Only xargs's own options count: "xargs grep -p x" passes -p to grep
+    for token in tokens[1:inner_start]:
         if token == "--":
             break
         if token in UNSAFE_FLAGS:
@@ -102,9 +105,6 @@ def classify(ctx: HandlerContext) -> Classification:
             return Classification("ask", description="xargs --interactive")
         if token.startswith("--open-tty"):
             return Classification("ask", description="xargs --open-tty")
-
-    # Find the inner command (skip xargs and its flags)
-    inner_start = 1 + _skip_flags(tokens[1:], FLAGS_WITH_ARG, stop_at_double_dash=True)
 
     if inner_start >= len(tokens):
         return Classification("ask", description="xargs (no command)")
